@@ -28,7 +28,7 @@ use crate::de_error::budget_error;
 use crate::location::location_from_span;
 use crate::options::BudgetReportCallback;
 use crate::tags::SfTag;
-use saphyr_parser::{BufferedInput, Event, Parser, ScalarStyle, ScanError, Span, StrInput};
+use saphyr_parser::{BufferedInput, Event, Parser, ScalarStyle, ScanError, Span, StrInput, Tag};
 use smallvec::SmallVec;
 use std::borrow::Cow;
 use std::cell::RefCell;
@@ -604,7 +604,22 @@ impl<'a> LiveEvents<'a> {
         };
 
         let raw = match ev {
-            Ev::Scalar { value, style, .. } => Event::Scalar(Cow::Borrowed(value), *style, 0, None),
+            Ev::Scalar {
+                value,
+                style,
+                raw_tag,
+                ..
+            } => {
+                // A tagged scalar is charged as a tagged scalar: the enforcer only asks whether
+                // there is a tag (a tagged `<<` is an ordinary key, not a merge key).
+                let tag = raw_tag.as_ref().map(|_| {
+                    Cow::Owned(Tag {
+                        handle: String::new(),
+                        suffix: String::new(),
+                    })
+                });
+                Event::Scalar(Cow::Borrowed(value), *style, 0, tag)
+            }
             Ev::SeqStart { .. } => Event::SequenceStart(0, None),
             Ev::SeqEnd { .. } => Event::SequenceEnd,
             Ev::MapStart { .. } => Event::MappingStart(0, None),
